@@ -2,6 +2,7 @@
 import re
 
 from report import Rule
+from rules.common import xquotes
 from mirlib import callee_name, op_const, op_place, backward_slice
 import mustlib as M
 from astlib import find_all, find_first, show, show_pat, quotes_in, tok_text, method_chain
@@ -300,7 +301,7 @@ def r4_warnings(ctx):
         r.missing("generate_warnings_inner")
         return r
     t = flat(show(fn.body))
-    qs = [flat(tok_text(q["tokens"])) for q in quotes_in(fn.body)]
+    qs = [flat(tok_text(q["tokens"])) for q in xquotes(fn.body)]
     ok1 = "letwarning_fns=warnings.iter().enumerate().map(warning_fn);" in t
     ok2 = "letfn_calls=(0..warnings.len()).map(" in t and "#fn_name();" in qs
     ok3 = any(q == "#[allow(unused)]fnwarnings(){#(#warning_fns)*#(#fn_calls)*}" for q in qs)
@@ -310,7 +311,7 @@ def r4_warnings(ctx):
         r.viol("R4:generate_warnings_inner", "warning generation changed (fns=%s calls=%s template=%s)" % (ok1, ok2, ok3), file=fn.file, line=fn.line)
     fn = ast.fn(MW, "warning_fn")
     if fn is not None:
-        qs = [flat(tok_text(q["tokens"])) for q in quotes_in(fn.body)]
+        qs = [flat(tok_text(q["tokens"])) for q in xquotes(fn.body)]
         t = flat(show(fn.body))
         if "#[deprecated(note=#msg)]fn#fn_name(){unimplemented!()}" in qs and "letmsg=warning.to_string();" in t and 'letfn_name=format_ident!("w{}",index);' in t:
             r.inst("warning_fn", "#[deprecated(note = <warning text>)] fn w<index>()")
